@@ -322,6 +322,10 @@ pub fn run(ctx: &mut Ctx) -> Result<(), Violation> {
         Ok(())
     });
     ctx.stage("random-fixpoint-formulas", false, r)?;
+    if ctx.tier == Tier::Thorough {
+        let r = fuzz_stage(ctx, "sem", 400_000, 300, &[vec![0u8; 8], vec![200u8; 64], (0..=255u8).collect()], replay);
+        ctx.stage("libfuzzer-sem", false, r)?;
+    }
     Ok(())
 }
 
